@@ -23,6 +23,9 @@ def main():
         bad = [(k, r) for k, v in by.items() for r in v if r.status != "discharged"]
         print("== %s%s: status=%s paths=%d completed=%d obligations=%d bad=%d canary=%s outcomes=%s  %.2fs" % (
             c.qualname, "[%s]" % c.variant if c.variant else "", run.status, run.paths, run.completed_paths, n, len(bad), run.canary_ok, run.outcomes, time.time() - t))
+        dead = sorted(x for x in run.called if x.endswith("/return") and ("call:" + x) not in run.covered)
+        if dead:
+            print("    VACUOUS modular calls (contract never satisfiable at the call site):", dead)
         if run.message:
             lines = run.message.splitlines()
             print("   ", lines[0])
